@@ -989,44 +989,78 @@ def wire_dir(d, num):
 
 
 class Image(object):
-    """the prepared stream of a real template as the model's heap: cell 0 = `_stream`; directive lists and
-    sub-stream lists get addresses in depth-first order; directive objects are numbered by identity"""
+    """the prepared streams of the real templates of one loader as the model's heap.  Addresses are
+    absolute: the templates are laid out one after the other in canonical order (the template itself,
+    then the other files by name), inside a template directive lists and sub-stream lists get addresses in
+    depth-first order.  Directive objects are numbered by identity, per template.  `layout` (from the twin
+    that prepared everything) fixes where each template starts, so that a template prepared later lands at
+    the same addresses."""
 
-    def __init__(self, dirnum=None):
-        self.cells = []
+    def __init__(self, names, dirnum=None, layout=None):
+        self.names = list(names)
+        self.cells = {}           # address -> wire cell
         self.addr = {}            # id(python list) -> address
         self.dirnum = dirnum if dirnum is not None else {}
         self.keep = []
+        self.layout = dict(layout) if layout else None
+        self.ranges = {}
+        self.roots = {}
+        self.next = 0
+        self.cur = 0
+        self.count = {}
 
     def num(self, d):
         k = id(d)
         if k not in self.dirnum:
-            self.dirnum[k] = len(self.dirnum)
+            n = self.count.get(self.cur, sum(1 for v in self.dirnum.values() if v // 1000 == self.cur))
+            self.count[self.cur] = n + 1
+            self.dirnum[k] = self.cur * 1000 + n
             self.keep.append(d)
         return self.dirnum[k]
+
+    def add_template(self, idx, name, tmpl):
+        if self.layout is not None:
+            self.next = self.layout[name][0]
+        start = self.next
+        self.cur = idx
+        self.roots[name] = self.add_evs(tmpl._stream)
+        self.ranges[name] = (start, self.next - start)
 
     def add_evs(self, events):
         from harness import evwire
         from genshi.core import START
         from genshi.template.base import EXPR, SUB, INCLUDE, EXEC
-        a = len(self.cells)
-        self.cells.append(None)
+        if id(events) in self.addr:
+            return self.addr[id(events)]
+        a = self.next
+        self.next += 1
         self.addr[id(events)] = a
         out = [Atom('E')]
         for ev in events:
             kind, data = ev[0], ev[1]
             if kind is SUB:
                 dirs, sub = data
-                da = len(self.cells)
-                self.cells.append(None)
-                self.addr[id(dirs)] = da
-                self.cells[da] = [Atom('D')] + [wire_dir(d, self.num(d)) for d in dirs]
+                if id(dirs) in self.addr:
+                    da = self.addr[id(dirs)]
+                else:
+                    da = self.next
+                    self.next += 1
+                    self.addr[id(dirs)] = da
+                    self.cells[da] = [Atom('D')] + [wire_dir(d, self.num(d)) for d in dirs]
                 ba = self.add_evs(sub)
                 out.append([Atom('S'), [Atom('t'), da], [Atom('t'), ba]])
             elif kind is EXPR:
                 e = wire_expr(data.ast)
                 out.append([Atom('X'), e] if e else Atom('U'))
-            elif kind is EXEC or kind is INCLUDE:
+            elif kind is INCLUDE:
+                href, cls, fb = data
+                if isinstance(href, str) and cls in (None, type(None)) or (isinstance(href, str) and getattr(cls, '__name__', '') == 'MarkupTemplate'):
+                    t = self.names.index(href) if href in self.names else None
+                    fba = self.add_evs(fb) if fb is not None else None
+                    out.append([Atom('I'), proto.N if t is None else t, proto.N if fba is None else [Atom('t'), fba]])
+                else:
+                    out.append(Atom('U'))
+            elif kind is EXEC:
                 out.append(Atom('U'))
             elif kind is START:
                 if all(isinstance(v, str) for _, v in data[1]):
@@ -1038,10 +1072,34 @@ class Image(object):
         self.cells[a] = out
         return a
 
+    def cell_list(self):
+        return [self.cells[i] for i in range(self.next)]
 
-def image_of(tmpl, dirnum=None):
-    im = Image(dirnum)
-    im.add_evs(tmpl._stream)
+
+def template_names(tspec):
+    files = tspec.get('files') or {}
+    return ['main.html'] + sorted(files) if files else ['<string>']
+
+
+def loaded_templates(b, names):
+    """(index, name, template object or None) in canonical order; only what the loader already holds"""
+    out = [(0, names[0], b.tmpl)]
+    for i, n in enumerate(names[1:], 1):
+        item = b.loader._cache._dict.get(n) if b.loader is not None else None
+        out.append((i, n, item.value if item is not None else None))
+    return out
+
+
+def twin_image(tspec):
+    """everything loaded and prepared, on an object of its own: the heap image and the layout"""
+    twin = build(tspec, mark='')
+    names = template_names(tspec)
+    for n in names[1:]:
+        twin.loader.load(n)
+    im = Image(names)
+    for i, n, t in loaded_templates(twin, names):
+        t.stream
+        im.add_template(i, n, t)
     return im
 
 
@@ -1052,8 +1110,8 @@ def wire_ctx(ctxt):
 
 
 def changed_cells(a, b):
-    n = max(len(a), len(b))
-    return [i for i in range(n) if (a[i] if i < len(a) else None) != (b[i] if i < len(b) else None)]
+    """addresses present before and after whose cell differs (a template prepared in between is new, not changed)"""
+    return sorted(i for i in a if i in b and a[i] != b[i])
 
 
 def wire_actions(case):
@@ -1070,31 +1128,40 @@ def wire_actions(case):
     return out
 
 
-def model_request(case, variant):
-    """the request line for gdrv; the heap image comes from a twin object prepared by itself"""
-    twin = build(case['tmpl'], mark='')
-    twin.tmpl.stream
-    im = image_of(twin.tmpl)
+def model_request(case, variant, im=None):
+    """the request line for gdrv; the heap image comes from a twin loader that prepared everything"""
+    im = im or twin_image(case['tmpl'])
+    names = template_names(case['tmpl'])
     return proto.line(Atom('C10'), Atom('run'), proto.B(variant[0]), proto.B(variant[1]),
-                      proto.B(bool(case['tmpl'].get('translator'))), FUEL, im.cells, wire_actions(case))
+                      proto.B(bool(case['tmpl'].get('translator'))), FUEL, [im.roots[n] for n in names],
+                      im.cell_list(), wire_actions(case))
 
 
-def real_run(case):
+def real_run(case, layout=None):
     """perform the actions on the real object; observations in the model's output vocabulary"""
     from harness import evwire
     from genshi.template.base import Context
     from genshi.filters.i18n import Translator
     b = build(case['tmpl'], mark='')
+    names = template_names(case['tmpl'])
+    if layout is None:
+        layout = twin_image(case['tmpl']).ranges
     dirnum = {}
     keep = []
 
     def cells_now():
-        if not b.tmpl._prepared:
-            return [], None
-        im = image_of(b.tmpl, dirnum)
+        im = Image(names, dirnum, layout)
+        for i, n, t in loaded_templates(b, names):
+            if t is not None and t._prepared:
+                im.add_template(i, n, t)
         keep.append(im)
         return im.cells, im
-    flags = lambda: [proto.B(_stream_prepared(b.tmpl)), proto.B(b.tmpl._prepared)]
+
+    def flags():
+        out = []
+        for i, n, t in loaded_templates(b, names):
+            out.append([proto.F, proto.F] if t is None else [proto.B(_stream_prepared(t)), proto.B(t._prepared)])
+        return out
     ctxs, its, term = [], [], []
     out = []
     for act in case['actions']:
@@ -1121,7 +1188,7 @@ def real_run(case):
         elif k == 's':
             i = act[1]
             if i >= len(its):
-                out.append([Atom('out'), i, Atom('halted'), proto.N, [], proto.N])
+                out.append([Atom('out'), i, Atom('halted'), proto.N, [], proto.N, flags()])
                 continue
             if term[i] is not None:
                 so = Atom('halted')
@@ -1140,7 +1207,7 @@ def real_run(case):
                     so = [Atom('err'), Atom(type(e).__name__)]
                     term[i] = 'err'
             after, _ = cells_now()
-            out.append([Atom('out'), i, so, wire_ctx(ctxs[i]), changed_cells(before, after), flatten_depth(its[i])])
+            out.append([Atom('out'), i, so, wire_ctx(ctxs[i]), changed_cells(before, after), flatten_depth(its[i]), flags()])
         elif k == 'x':
             tr = b.translator or Translator()
             code = Translator.extract.__code__
@@ -1165,7 +1232,7 @@ def real_run(case):
             except Exception as e:  # noqa
                 err = Atom(type(e).__name__)
             after, im = cells_now()
-            trace = [im.addr.get(id(st), -1) for st in calls] if im else []
+            trace = [im.addr.get(id(st), -1) for st in calls]
             out.append([Atom('extracted'), trace, err, changed_cells(before, after), flags()])
         elif k == 'p':
             try:
@@ -1226,16 +1293,17 @@ def _is_unmodelled(x):
 def compare_model(cases, res, variant, stream='steps'):
     """run the cases through gdrv and through the real code, compare observation by observation (up to
     the first observation the model does not cover, which ends the comparison of that case)"""
-    lines = [model_request(c, variant) for c in cases]
+    twins = [twin_image(c['tmpl']) for c in cases]
+    lines = [model_request(c, variant, im) for c, im in zip(cases, twins)]
     answers = proto.run_lines(lines)
-    for c, ans in zip(cases, answers):
+    for c, ans, im in zip(cases, answers, twins):
         if ans in ('bad-op', 'bad-line'):
             res.disagreements.append({'stream': stream, 'case': c, 'model': ans, 'real': 'request not understood'})
             continue
         model = proto.dec(ans)
         if model == []:
             model = []
-        real = proto.dec(proto.enc(real_run(c)))      # same vocabulary as the decoded answer
+        real = proto.dec(proto.enc(real_run(c, im.ranges)))      # same vocabulary as the decoded answer
         if len(model) != len(real):
             res.disagreements.append({'stream': stream, 'case': c, 'model': '%d observations' % len(model),
                                       'real': '%d observations' % len(real)})
@@ -1254,12 +1322,12 @@ def compare_model(cases, res, variant, stream='steps'):
             res.streams[stream] = res.streams.get(stream, 0) + 1
             if act[0] == 's' and isinstance(m, list) and len(m) > 2 and isinstance(m[2], list) and m[2] and m[2][0] == 'err':
                 # after an exception the context is whatever the unwinding left; compare the exception only
-                m, r = m[:3] + m[4:5], r[:3] + r[4:5]
+                m, r = m[:3] + m[4:5] + m[6:], r[:3] + r[4:5] + r[6:]
                 res.count('model:err:' + str(m[2][1]))
             elif act[0] == 's' and isinstance(m, list) and len(m) > 2 and m[2] == 'halted':
-                m, r = m[:3] + m[4:5], r[:3] + r[4:5]
+                m, r = m[:3] + m[4:5] + m[6:], r[:3] + r[4:5] + r[6:]
             elif act[0] == 's' and isinstance(m, list) and len(m) > 2 and m[2] == 'done':
-                m, r = m[:5], r[:5]          # the finished generator has no frame to look into
+                m, r = m[:5] + m[6:], r[:5] + r[6:]          # the finished generator has no frame to look into
             if m != r:
                 res.disagreements.append({'stream': stream, 'case': c, 'model': 'action %d %s: %s' % (n, act, trunc(m, 700)),
                                           'real': trunc(r, 700)})
@@ -1270,7 +1338,7 @@ def compare_model(cases, res, variant, stream='steps'):
 
 def gen_model_case(rng):
     t = G.rand_template(rng, modelled=True)
-    tspec = {'src': t['src'], 'files': {}, 'translator': t['translator'], 'auto_reload': True}
+    tspec = {'src': t['src'], 'files': t['files'], 'translator': t['translator'], 'auto_reload': True}
     k = rng.choice([1, 2, 2, 3])
     datas = [G.rand_data(rng, True, fail_bias=0.15 if rng.random() < 0.3 else 0.0) for _ in range(k)]
     acts = []
